@@ -18,6 +18,7 @@ META = {
 }
 
 THEOREMS = ["relate_cov_shape", "relate_cov_constraints", "relate_cov_shape_unknowns", "relate_cov_constraints_unknowns",
+            "relate_constraints_unknowns_any_variance",
             "xform_assoc", "invert_involutive"]
 
 PROGRAM = """
